@@ -126,6 +126,30 @@ Example is_directory_ex :
              /\ map extract_action_path ps = [XDir; XFile; XFile].
 Proof. eexists. split; [vm_compute; reflexivity|]. split; vm_compute; reflexivity. Qed.
 
+(* the flag is the format's, entry by entry: an entry without data is a directory iff its EmptyFile bit is clear --
+   whatever its attribute word holds, or if the archive stores none -- and is otherwise listed as an (empty) file;
+   an entry with data is decided by FILE_ATTRIBUTE_DIRECTORY *)
+Theorem is_directory_per_format : forall h files ps i e p,
+  impl_plans h = Ok ps -> h_files h = Some files -> nth_error files i = Some e -> nth_error ps i = Some p ->
+  af_is_directory p = (if e_emptystream e then negb (ip_emptyfile p) else attr_is_dir (e_attr e))
+  /\ (e_emptystream e = true -> (af_is_directory p = false <-> ip_kind p = 1)).
+Proof. exact is_directory_per_entry. Qed.
+Print Assumptions is_directory_per_format.
+
+(* directories without the directory attribute (attribute word 0x20, undefined, none) and an empty file carrying it:
+   the headers of C06's assign_dir_without_attribute_conforms / assign_emptyfile_with_dir_attribute_conforms *)
+Example is_directory_without_attribute_ex :
+  nice w_dir_attr_nobit = true /\ nice w_file_dirattr = true /\ nice w_dir_noattr = true /\
+  (exists ps, impl_plans (embed w_dir_attr_nobit) = Ok ps /\ map af_is_directory ps = [true; false; true; true]
+              /\ map extract_action_path ps = [XDir; XFile; XDir; XDir]
+              /\ map pl_kind (spec_plans w_dir_attr_nobit) = [2; 0; 2; 2]) /\
+  (exists ps, impl_plans (embed w_file_dirattr) = Ok ps /\ map af_is_directory ps = [false; false]
+              /\ map extract_action_path ps = [XFile; XFile]
+              /\ map pl_kind (spec_plans w_file_dirattr) = [0; 1]) /\
+  (exists ps, impl_plans (embed w_dir_noattr) = Ok ps /\ map af_is_directory ps = [false; true]
+              /\ map extract_action_path ps = [XFile; XDir]).
+Proof. vm_compute. repeat split; try reflexivity; eexists; repeat split; reflexivity. Qed.
+
 (* ---- getinfo ---- *)
 (* every listed name is found, as it stands (first member of that name) and with a slash appended *)
 Theorem getinfo_total : forall dflt h ps n,
